@@ -310,7 +310,7 @@ def r12_5(ctx):
         if not (rv[0] == 'agg' and rv[1].endswith('RegistryEntry::NotFound')):
             continue
         n += 1
-        calls = path_calls(p)
+        calls = path_calls(p, expand=False)      # promote() is modelled as a whole below
         # simulate positions: perm maps current position -> original identity (symbolic names)
         ident = {}
 
